@@ -50,6 +50,14 @@ WHITELIST = [
     "MonteCarloEER:misclassification_loss",
     "ContrastiveAL",
     "CoreSet",
+    # variants with non-default constructor parameters (utilities still independent of the other candidates)
+    "UncertaintySampling:lc_cost",
+    "UncertaintySampling:ms_cost",
+    "ProbabilisticAL:prior",
+    "QueryByCommittee:KL_eps",
+    "ExpectedModelOutputChange:loss",
+    "MonteCarloEER:cost",
+    "ContrastiveAL:nn",
 ]
 
 
